@@ -707,9 +707,35 @@ def run(ctx, idx):
                 ctx.violate("C19.b", "%s::collected-once" % init.key, K.rel(init), n.lineno, "the registry is read inside the loop that loads the libraries: commands that a later library registers under an earlier library's prefix are missed on the first construction and found on the second")
             else:
                 ctx.hold("C19.b", "%s::collected-once" % init.key, K.rel(init), n.lineno, "accumulated per library after loading, entries already collected are dropped")
+    # every admitted command is COUNTED: between the selection and the duplicate count nothing takes entries out of it again (a
+    # second filter that drops "overridden" or "older" entries resolves a clash silently instead of refusing it)
+    if selname is not None:
+        again = [n for n in own_nodes(init.node) if isinstance(n, ast.Assign) and n.value is not comp and any(isinstance(t_, ast.Name) and t_.id == selname for t_ in n.targets) and selname in K.names_in(n.value)]
+        drops = [n for n in own_nodes(init.node) if (isinstance(n, ast.Call) and isinstance(n.func, ast.Attribute) and n.func.attr in ("remove", "pop", "clear") and K.src(n.func.value) == selname)
+                 or (isinstance(n, ast.Delete) and any(isinstance(t_, ast.Subscript) and K.src(t_.value) == selname for t_ in n.targets))]
+        thin = [n for n in again if any(isinstance(x_, (ast.ListComp, ast.GeneratorExp, ast.SetComp)) and any(g_.ifs for g_ in x_.generators) for x_ in ast.walk(n.value))
+                or any(isinstance(x_, ast.Call) and K.src(x_.func) in ("filter", "set", "dict") for x_ in ast.walk(n.value))]
+        b_ = (thin + drops)[:1]
+        ctx.ob("C19.b", "%s::every-admitted-command-is-counted" % init.key, K.rel(init), b_[0].lineno if b_ else init.node.lineno, not b_,
+               "the selection goes to the duplicate count as collected" if not b_ else
+               "`%s` takes entries out of the selection before the duplicate names are counted: two requested libraries that define the same command name no longer make the construction fail - one of them is picked silently (and which classes count as `the same` depends on what was imported before)" % K.src(b_[0])[:70])
     ok = sv is not None and selname is not None and selname in K.names_in(sv)
     ctx.ob("C19.b", "%s::lookup-from-selection" % init.key, K.rel(init), stores[0].line, ok,
            "lookup built from the filtered selection `%s`" % selname if ok else "the command lookup is not built from the library-filtered selection")
+    # ---- f: who reads the process-wide registry
+    ctx.rule("C19.f", "The process-wide registry is read in one place: Program.__init__, filtered by the requested libraries. Any other reader in the package (the EEMS 2.0 conversion, a cleaner, a serialiser) sees every command class the process has ever defined, so what it does depends on what earlier programs loaded.")
+    n_rd = 0
+    for mod, fi, n in K.scoped_nodes(idx):
+        if "/tests/" in mod.rel or mod.name == "mpilot.commands":
+            continue
+        is_read = (isinstance(n, ast.Call) and isinstance(n.func, ast.Attribute) and n.func.attr == "get_commands") or (isinstance(n, ast.Attribute) and n.attr == "_commands" and isinstance(n.ctx, ast.Load))
+        if not is_read:
+            continue
+        n_rd += 1
+        okr = fi is init or (fi is not None and getattr(fi, "cls", None) is prog and fi in K.helper_closure(idx, init))
+        ctx.ob("C19.f", "%s::registry-read" % K.where(mod, fi), mod.rel, n.lineno, okr, "read by Program.__init__ (and filtered there)" if okr else
+               "`%s` reads the process-wide command registry outside Program.__init__: it sees the commands of every library any earlier program loaded, not the ones this program requested - the same file then loads differently depending on what ran before" % K.src(n)[:50])
+    ctx.floor("C19.f", "reads of the process-wide registry", n_rd, 1)
     # ---- c
     meta = idx.cls("mpilot.commands", "CommandMeta")
     new = meta.methods.get("__new__")
